@@ -63,7 +63,7 @@ def mc_plan(prop: str, tier: str) -> List[Dict[str, Any]]:
         "C01": [dict(cfgs=flow_small if q else flow_big, outcomes=["ret"], max_now=0)],
         "C03": [dict(cfgs=flow_small if q else flow_big, outcomes=["ret", "exc"], max_now=0)],
         "C04": [dict(cfgs=sat if q else sat_big, outcomes=["ret"], max_now=0)],
-        "C05": [dict(cfgs=timed_small if q else timed_big, outcomes=["ret"], max_now=6 if q else 8)],
+        "C05": [dict(cfgs=timed_small if q else timed_big, outcomes=["ret"], max_now=9 if q else 10)],
         "C02": [dict(cfgs=pipe_small if q else pipe_big, outcomes=oc_all, max_now=0 if q else 3)],
         "C07": [dict(cfgs=pipe_small if q else pipe_big, outcomes=oc_all + ["base"], max_now=0 if q else 3)],
         "C10": [dict(cfgs=pipe_small if q else pipe_big, outcomes=oc_all, max_now=0)],
@@ -248,7 +248,13 @@ def run_check(prop: str, tier: str, write: bool = True) -> int:
     ncf = 160 if tier == "quick" else 2500
     step = max(1, len(traces) // ncf)
     sample_idx = list(range(0, len(traces), step))[:ncf]
-    cf = rx.conform([traces[i] for i in sample_idx], switches=sw)
+    try:
+        cf = rx.conform([traces[i] for i in sample_idx], switches=sw)
+    except tlc.TLCError as exc:
+        if not rep.violations:
+            raise
+        rep.info('conformance run failed after violations were found: ' + str(exc)[:300])
+        cf = []
     accepted = sum(1 for a, b in cf if a == b)
     for (a, b), i in zip(cf, sample_idx):
         if a != b:
